@@ -178,7 +178,7 @@ def run_generator(ctx, cfg):
         def build(vertices):
             args = list(vertices)
             ret = f(vertices)
-            r.calls.append({"j": j, "args": args, "ret": ret})
+            r.calls.append({"j": j, "args": args, "ret": ret, "obj": vertices})  # obj: the very object handed over (a callback may keep it)
             return ret
 
         return build
